@@ -451,6 +451,10 @@ class KindAnalysis:
             if s and s[0] == "N":
                 return ("FLAT", s[1])
             return None
+        if name in ("np.fromiter", "np.array", "np.asarray", "list", "tuple") and args:
+            a0 = self.k(args[0])
+            if a0 and a0[0] == "SEQ" and a0[1] and a0[1][0] == "VAL":
+                return ("FLAT", a0[1][1])
         if name == "np.flatnonzero" and args:
             a = self.k(args[0])
             return ("SEQ", ("LIN", a[1])) if a and a[0] == "FLATMASK" else None
@@ -463,11 +467,17 @@ class KindAnalysis:
             return None
         if isinstance(c.func, ast.Attribute) and c.func.attr == "reshape" and args:
             b, s = self.k(c.func.value), self.k(args[0])
+            if b and s and b[0] == "FLAT" and s[0] == "T" and b[1] == "INSERTION-ORDER":
+                self.report(c, False, f"`{norm(c)[:60]}` lays the dict's values out in INSERTION order over {show(s)}: element k of the flat array is whatever was stored k-th, not the element with linear index k - "
+                            "with workers that store their own results (shared-memory dict) insertion order is completion order, so the array is permuted whenever tasks do not finish in index order")
+                return None
             if b and s and b[0] == "FLAT" and s[0] == "T":
                 self.need(c, s, ("T", b[1]), f"`{norm(c)[:60]}` reshapes the flat array")
             return None
         if isinstance(c.func, ast.Attribute) and c.func.attr in ("get", "items", "values", "keys"):
             b = self.k(c.func.value)
+            if b and b[0] == "DICT" and c.func.attr == "values":
+                return ("SEQ", ("VAL", "INSERTION-ORDER"))  # the stored elements in the order they were inserted (= completed)
             if b and b[0] == "DICT" and c.func.attr == "items":
                 return ("SEQ", ("ITEM", b[1]))
             if b and b[0] == "DICT" and c.func.attr in ("keys",):
